@@ -136,6 +136,7 @@ def do_edit(rng, mid):
         if any(len(t) for t in tracks):
             names += ['msg.time=', 'msg.attr=', 'msg.tempo=', 'track.pop', 'track.slice=', 'track.setitem',
                       'track.swap', 'msg.time=', 'msg.attr=', 'track.setitem'] * 2
+            names += ['msg.time=float', 'insert-realtime', 'fix-unstorable', 'fix-unstorable']
     if rng.random() < 0.03:
         names = ['tracks.clear']
     e = rng.choice(names)
@@ -211,6 +212,21 @@ def do_edit(rng, mid):
             m.data += (1,)
         elif m.type == 'set_tempo':
             m.tempo = rng.randrange(1, 2 ** 24)
+    elif e == 'msg.time=float':
+        # not storable: save() must refuse; a later edit repairs it
+        tr = max(ne, key=len)
+        m = tr[-1]
+        vars(m)['time'] = 0.5
+    elif e == 'insert-realtime':
+        tr = max(ne, key=len)
+        tr.append(Message('clock', time=1))
+    elif e == 'fix-unstorable':
+        for tr in tracks:
+            for i in reversed(range(len(tr))):
+                if tr[i].type == 'clock':
+                    del tr[i]
+                elif not isinstance(tr[i].time, int):
+                    tr[i].time = 2
     elif e == 'msg.tempo=':
         tempos = [m for t in tracks for m in t if m.type == 'set_tempo']
         if tempos:
